@@ -12,7 +12,9 @@ META = {
     "level_text": "props/C19.v: the tables regenerated from brine.py/channel.py/consts.py/protocol.py equal the hand-written published tables (tags, immediates, "
                   "ladders, struct formats, frame parameters and comparison, message/label/handler numbers, handler table, message tuple layout); each ladder provably "
                   "picks a shortest admissible header and immediates are used whenever available; every admissible alternative form (one-byte or four-byte counts) "
-                  "is accepted by the decoder with the same meaning; acceptance of conforming frames under either compression choice is C05's theorem. The reference "
+                  "is accepted by the decoder with the same meaning; any stream of conforming frames (any flag byte, compressed at any size) read through any benign "
+                  "fragmentation is delivered payload by payload (c19_accepts_any_conforming_frames); values cross the whole stack encode-frame-fragment-unframe-decode "
+                  "unchanged (c19_values_cross_the_wire, gluing the C04 and C05 theorems). The reference "
                   "codec/peer exchanges real frames with a real Connection in both directions.",
     "level_note": "Trusted: Coq kernel, pygen, the hand-written Published.v and harness/refcodec.py as the statement of the published format, harness. zlib output bytes are "
                   "not pinned by the format (compared after inflation).",
